@@ -35,6 +35,18 @@ def genFormatted (i : Nat) : G (List String) := do
         out := out ++ (round.filter (·.startsWith "pktf ")).flatMap fun l => [l, "expect @fmt"]
   pure out
 
+/-- now and then the format refuses a message that is not the first of its datagram: the messages in front of it were
+    delivered, the datagram's outcome is the refusal — and every message of the datagram goes back to the pool once -/
+def withRefusals (pipe : String) : List String → G (List String)
+  | p :: r :: c :: rest => do
+    let n := ((c.drop 14).toString).toNat!
+    if p.startsWith "pkt " ∧ (r = "expect @res ok" ∨ r = "expect @res err:template-not-found") ∧ c.startsWith "expect @count " ∧ n ≥ 2 ∧ (← chance 1 4) then
+      let k ← range 2 n
+      pure (["failat " ++ pipe ++ " " ++ toString k, p, "expect @res err", "expect @count " ++ toString (k - 1)] ++ (← withRefusals pipe rest))
+    else
+      pure (p :: (← withRefusals pipe (r :: c :: rest)))
+  | l => pure l
+
 def gen (n : Nat) : G (List String) := do
   let mut out : List String := []
   for i in [0:n] do
@@ -44,7 +56,7 @@ def gen (n : Nat) : G (List String) := do
     let pipe := if i % 2 = 0 then "nf" else "auto"
     out := out ++ header
     let len ← range 3 25
-    let hist ← genMixed pipe len 15
+    let hist ← withRefusals pipe (← genMixed pipe len 15)
     let e : Exporter := ⟨[10, 9, 9, 9], 4000⟩
     let fd ← failingDatagram 10 77
     -- poison, run the history (poisoning again in the middle), a failing datagram, then poison and probe
